@@ -187,6 +187,8 @@ def main():
         conds.append(Cond("vf.ch.h_c01", "check_assign", f"[graph pass, input 0, auto-update {'on' if a else 'off'}] {OPS['check_assign']}; the cache invariant is preserved", timeout_s=to,
                           env={"GRAPH": "pass", "TGT": "0", "AUTO": str(a)}, signature="pass:check_assign"))
     conds.append(Cond("vf.ch.h_c01", "check_update_all", f"[graph pass] {OPS['check_update_all']}; the cache invariant is preserved", timeout_s=to, env={"GRAPH": "pass"}, signature="pass:check_update_all"))
+    conds.append(Cond("vf.ch.h_c01", "check_update_transient", "[graph chain] Model.update(name) with a transient node (it caches nothing itself) as the named target: all its caching ancestors are up to date with "
+                      "from-scratch values afterwards, unrelated nodes untouched; the cache invariant is preserved", timeout_s=to, env={"GRAPH": "chain"}, signature="chain:check_update_transient"))
     run_conditions(chk, conds)
     if not os.environ.get("VERIF_ONLY") or os.environ.get("VERIF_ONLY", "").startswith("raiser"):
         chk.guarded("raiser", "assignment whose auto-update raises (Engine C)", raising_assignment, chk)
